@@ -77,12 +77,30 @@ Section Serve.
   Variable fuel : nat.
   Variable srv : server.
   Variable extb : list (bstr * bstr).       (* blocks the server's proof resolver can supply *)
+  (* how a block is read as a token: TokenView.view_block, or any function equal to it on every
+     block (the correspondence uses one that looks DID strings up in a table computed once) *)
+  Variable view : bstr -> token.
+  Hypothesis Hview : forall b, view b = view_block lid keys valid alg_of b.
   Notation decode := (decode_message mh_digest hdr_oracle).
 
   (* the token store of a request: every block of the request (and of the resolver), read as the
      accessors read it *)
+  Definition view_tbl (bl : list (bstr * bstr)) : list (link * token) :=
+    map (fun cb => (lid (fst cb), view (snd cb))) bl.
+
+  (* the table of views is computed ONCE (let-bound outside the function: what makes the
+     evaluation of serve_bytes on real request bodies cheap) *)
   Definition U_of (blocks : list (bstr * bstr)) : link -> option token :=
-    store_of (B_of (blocks ++ extb)) lid keys valid alg_of.
+    let tbl := view_tbl (blocks ++ extb) in
+    fun l => match find (fun e => fst e =? l) tbl with Some e => Some (snd e) | None => None end.
+
+  (* pointwise it is TokenView.store_of of the block table *)
+  Lemma U_of_spec blocks l :
+    U_of blocks l = option_map (view_block lid keys valid alg_of) (B_of (blocks ++ extb) l).
+  Proof.
+    unfold U_of, B_of, view_tbl. cbv zeta. induction (blocks ++ extb) as [|[k v] bl IH]; [reflexivity|].
+    cbn [map find fst snd]. destruct (lid k =? l); [cbn [option_map]; rewrite Hview; reflexivity | exact IH].
+  Qed.
 
   Definition blocks_of (d : decoded) : list (bstr * bstr) := tbl_blocks (d_store d).
 
@@ -125,18 +143,18 @@ Section Serve.
 
   (* a bound on the number of proofs any block of the request cites *)
   Definition prf_bound (blocks : list (bstr * bstr)) : nat :=
-    S (fold_right (fun cb acc => Nat.max (length (t_prf (view_block lid keys valid alg_of (snd cb)))) acc) 0%nat (blocks ++ extb)).
+    S (fold_right (fun cb acc => Nat.max (length (t_prf (view (snd cb)))) acc) 0%nat (blocks ++ extb)).
 
   Lemma prf_bound_pos blocks : (0 < prf_bound blocks)%nat.
   Proof. unfold prf_bound. lia. Qed.
 
   Lemma prf_bound_spec blocks l t : U_of blocks l = Some t -> (length (t_prf t) <= prf_bound blocks)%nat.
   Proof.
-    unfold U_of, store_of. destruct (B_of (blocks ++ extb) l) as [data|] eqn:E; [|discriminate].
+    rewrite U_of_spec. destruct (B_of (blocks ++ extb) l) as [data|] eqn:E; [|discriminate].
     cbn [option_map]. intros H. inversion H; subst. clear H.
     apply B_of_some in E. destruct E as [c [I _]]. unfold prf_bound.
     induction (blocks ++ extb) as [|[k v] bl IH]; [destruct I|]. cbn [fold_right snd]. destruct I as [E|I].
-    - inversion E; subst. lia.
+    - inversion E; subst. rewrite Hview. lia.
     - specialize (IH I). lia.
   Qed.
 
@@ -195,7 +213,7 @@ Section Serve.
       as (l & h & a & t & c & Hl & Hv & Ek & Ht & Hc & Hf & HP).
     unfold exec_of in Hl. apply in_map_iff in Hl. destruct Hl as [cid [El Hcid]]. subst l.
     (* the invocation's token is the view of a block of the table *)
-    unfold tok, U_of, store_of in Ht. cbn [d_link] in Ht.
+    unfold tok in Ht. rewrite U_of_spec in Ht. cbn [d_link] in Ht.
     destruct (B_of_app_vis (blocks_of d) extb (lid cid) Hv) as [EB _]. rewrite EB in Ht.
     destruct (B_of (blocks_of d) (lid cid)) as [data|] eqn:B; [|discriminate].
     cbn [option_map] in Ht. inversion Ht as [Ht']. clear Ht.
@@ -207,7 +225,7 @@ Section Serve.
       exists cid, data, ut, h, a, c. cbv zeta.
       split; [exact Hcid|]. split; [exact I|]. split; [exact TD|]. split; [exact Hc|].
       split; [exact Hf|]. split; [exact Ek|]. split; [exact HP|].
-      apply P_to_sg; [apply sig_ok_to_bytes | exact HP].
+      apply P_to_sg; [apply sig_ok_to_bytes_U; apply U_of_spec | exact HP].
     - rewrite (view_block_undecodable lid keys valid alg_of data TD) in Ht'. subst t. discriminate Hc.
   Qed.
 
@@ -288,13 +306,13 @@ Section Serve.
   Proof.
     intros W B blocks ND HT. split; [|split].
     - intros c t I. destruct (HT c t I) as [Wt [Bt [Tt NF]]].
-      unfold U_of, store_of.
+      rewrite U_of_spec.
       rewrite (B_of_app_in blocks extb c (token_bytes t) ND).
       + cbn [option_map]. f_equal. apply view_block_bytes; assumption.
       + apply in_or_app. left. apply in_map_iff. exists (c, t). auto.
-    - unfold U_of, store_of. rewrite (B_of_app_in blocks extb root (message_bytes m) ND).
+    - rewrite U_of_spec. rewrite (B_of_app_in blocks extb root (message_bytes m) ND).
       + cbn [option_map]. f_equal. apply view_block_undecodable. apply message_not_a_token; assumption.
       + apply in_or_app. right. left. reflexivity.
-    - intros l NI. unfold U_of, store_of. rewrite (B_of_none (blocks ++ extb) l NI). reflexivity.
+    - intros l NI. rewrite U_of_spec. rewrite (B_of_none (blocks ++ extb) l NI). reflexivity.
   Qed.
 End Serve.
